@@ -7,7 +7,11 @@ package main
 // and not yet collected, at most RecvLimit log messages arrive, the case taken is arbitrary among the
 // ready ones (engine/sym/selectmodel.go).
 
-import "strconv"
+import (
+	"strconv"
+
+	"github.com/zalf-rpm/Hermes2Go/hermes"
+)
 
 func init() {
 	vRegister("zzC11Dispatch", func(a []int) { zzC11Dispatch(a[0], a[1]) })
@@ -27,6 +31,24 @@ func zzC11Dispatch(L, slots int) {
 	vAssert("C11.dispatch.every_result_collected", vRecvCount("result") == L)
 	ints, _ := vTokens(vLastOut())
 	vAssert("C11.dispatch.error_count_is_number_of_failed_runs", len(ints) == 1 && ints[0] == vRecvFlagCount("Success", false))
+	// the summary lists exactly the failed runs: the line of every received result is printed once if the run
+	// failed and not at all if it succeeded (every received result carries its own log id)
+	vAssert("C11.dispatch.summary_header_printed_once", vOutCount("Error Summary:") == 1)
+	for k := 1; k <= vRecvN(); k++ {
+		if vRecvTaken(k, 0) {
+			r, ok := vRecvValue(k, 0).(*hermes.RunReturn)
+			if !ok {
+				continue
+			}
+			listed := vOutCount(r.LogID + " Error: run failed")
+			if r.Success {
+				vAssert("C11.dispatch.successful_run_not_in_error_summary", listed == 0)
+			} else {
+				vAssert("C11.dispatch.failed_run_listed_exactly_once", listed == 1)
+				vCover("C11.dispatch.cover_failed_run_listed")
+			}
+		}
+	}
 	if vRecvCount("log") > 0 && vRecvFlagCount("Success", false) > 0 {
 		vCover("C11.dispatch.cover_log_message_and_failed_run")
 	}
